@@ -150,7 +150,7 @@ class C08CountingCuckoo(CuckooWorld):
 SPEC = PropSpec(
     prop="C08",
     scenarios=[(1, C08CountingBloom), (2, C08CountingCuckoo)],
-    runs={"quick": 20000, "thorough": 800000},
+    runs={"quick": 40000, "thorough": 1000000},
     rule=("two scenarios.  CountingBloomFilter: <=120 cells, 7 hash strategies incl. range-squeezed (coinciding "
           "positions), <=40 steps of add(key,n) / legitimate remove / LIFO bracket (export, adds, undo in reverse, export "
           "must be identical) / removal of a key reported absent; check >= outstanding for every key after every step.  "
